@@ -177,7 +177,10 @@ def run(cx):
     cx.need(len(bufs) <= 1, "R11a", gen, f"more than one buffered region: {sorted(bufs)}")
     buf = next(iter(bufs), None)
     cl = Classifier(gen, cp, buf)
-    res = events.check(gen, cl, SPEC, "q0", {"acc"}, erase=ERASE, buffers={buf: None} if buf else None)
+    res = events.check(gen, cl, SPEC, "q0", {"acc"}, erase=ERASE, buffers={buf: None} if buf else None, known_tests=events.reference_tests(gen))
+    if not res.violations and res.uncertain:
+        # only along paths through a test on state the event engine does not track: a loss of precision, not a finding
+        raise AnalysisError("R11a", f"{REL}::_gen_ch_chunks_for_obj", f"event language not decided: the only irregular paths go through a test on untracked state (line {res.uncertain[0][1][-1] if res.uncertain[0][1] else '?'}: {res.uncertain[0][0][:60]})")
     cx.counts.update({"R11a:cfg nodes": res.cfg_nodes, "R11a:product states": res.states, "R11a:transitions": res.transitions,
                       "R11a:event sites by letter": dict(res.letters)})
     n_sites = sum(1 for n in walk_local(gen) if isinstance(n, (ast.Yield, ast.YieldFrom)))
